@@ -305,6 +305,14 @@ func (m *Monitor) tcpIdle(now int64) {
 					t.ClosedAt = now
 					continue
 				}
+				if t.Bound && t.Uncertain && !m.serverClosed && now > t.BoundAt.Hi+5e9 && m.K.Parked() == 0 && len(m.K.StallIntervals()) == 0 && !m.leakReported[fmt.Sprintf("unpiped:%d", cid)] {
+					// the success response of its ConnectionBind could not be written, so no pipe was
+					// set up - but the connection counts as bound: no timer will close it, no second
+					// bind can have it. Given up by the server, it has to be closed by the server.
+					m.leakReported[fmt.Sprintf("unpiped:%d", cid)] = true
+					m.v([]string{"C16"}, "bound-not-piped", nil, "peer connection %d (%s) was marked bound at %d, the ConnectionBind success could not be written, and %d ns later the connection is still open: never piped, never timed out, not bindable again", cid, t.Peer, t.BoundAt.Hi, now-t.BoundAt.Hi)
+					continue
+				}
 				if !m.serverClosed && !m.M.PossiblyAlive(a, now, now) && m.K.Parked() == 0 && !m.leakReported[fmt.Sprintf("peer-conn:%d", cid)] {
 					// (C15) an allocation that has ended owns nothing: its peer connections - pending or
 					// bound - went with it, whatever else its teardown ran into
